@@ -62,7 +62,7 @@ EMPTY = z3.StringVal("")
 SPEC_FUNCS = (
     "joined old count n_count first_start last_end chain_ok span_ok joined_values "
     "implies is_none appended length seq_of at unchanged strip lstrip rstrip isspace "
-    "startswith endswith contains substr ite same present is_ctor or_empty field refs_closed writes_only has_op declares_param defines chars_subset"
+    "startswith endswith contains substr ite same present is_ctor or_empty field refs_closed writes_only has_op declares_param defines chars_subset differs_only_at"
 ).split()
 
 
@@ -85,6 +85,8 @@ class State(object):
         s.pc = list(self.pc)
         s.old = self.old
         s.ghost = dict(self.ghost)
+        if "__paths__" in s.ghost:
+            s.ghost["__paths__"] = dict(s.ghost["__paths__"])
         s.notes = list(self.notes)
         s.trace = list(self.trace)
         return s
@@ -726,6 +728,10 @@ class Engine(object):
             if isinstance(o, RecordObj) and z3.is_string_value(x.z):
                 k = x.z.as_string()
                 return o.fields[k][0] if k in o.fields else z3.BoolVal(False)
+        if isinstance(container, VPy) and isinstance(container.obj, (frozenset, set, tuple)) and isinstance(x, VOpaque):
+            f_ = z3.Function("in:%s" % sorted(map(repr, container.obj)), Opaque, B)
+            self.assumptions.add("membership of an uninterpreted value in a constant set is a function of the value")
+            return f_(x.z)
         self.abstracted.add("abstracted: membership test")
         return fresh("in", B)
 
@@ -774,6 +780,21 @@ class Engine(object):
             raise Unsupported("node has no field %s" % attr)
         if isinstance(v, VPy) and hasattr(v.obj, attr):
             return self.lift_global(getattr(v.obj, attr), attr)
+        if isinstance(v, VOpaque):
+            # access path on an uninterpreted object: the same path denotes the same object until it is stored to
+            path = (v.path + "." + attr) if getattr(v, "path", None) else None
+            memo = st.ghost.setdefault("__paths__", {})
+            if path is not None:
+                if path not in memo:
+                    kind = self.contract.paths.get(path) if self.contract is not None else None
+                    nv = self.fresh_value(kind, path, st) if kind else VOpaque(note=path)
+                    if isinstance(nv, VOpaque):
+                        nv.path = path
+                    memo[path] = nv
+                return memo[path]
+            f_ = z3.Function("attr:%s" % attr, Opaque, Opaque)
+            self.assumptions.add("attribute reads on uninterpreted objects are pure (attr:%s is a function of the object)" % attr)
+            return VOpaque(f_(v.z), note="." + attr)
         raise Unsupported("attribute %s of %s" % (attr, type(v).__name__))
 
     # ------------------------------------------------------------------ subscripts
@@ -1116,6 +1137,8 @@ class Engine(object):
                 return [(st, r)]
         if name == "abs" and len(args) == 1 and isinstance(args[0], VInt):
             return [(st, VInt(z3.If(args[0].z < 0, -args[0].z, args[0].z)))]
+        if name == "int" and len(args) == 1 and isinstance(args[0], (VBool, VInt)):
+            return [(st, VInt(z3.If(args[0].z, 1, 0)) if isinstance(args[0], VBool) else args[0])]
         if name == "bool" and len(args) == 1:
             return [(st, VBool(self.truthy(args[0], st)))]
         if name in ("all", "any") and len(args) == 1 and isinstance(args[0], VTuple):
@@ -1133,6 +1156,8 @@ class Engine(object):
             return [(st, st.alloc(RecordObj({k: (z3.BoolVal(True), v) for k, v in kwargs.items()})))]
         if name == "partial" and args:
             return [(st, VPartial(args[0], args[1:], kwargs))]
+        if name in ("frozenset", "set") and len(args) == 1 and isinstance(args[0], VTuple) and all(isinstance(i, VStr) and z3.is_string_value(i.z) for i in args[0].items):
+            return [(st, VPy(frozenset(i.z.as_string() for i in args[0].items), "frozenset"))]
         if name in ("frozenset", "set") and len(args) == 1 and isinstance(args[0], VStr):
             return [(st, VCharSet(args[0].z))]
         if name == "slice" and len(args) == 2 and all(isinstance(a, (VInt, VNone)) for a in args):
@@ -1432,6 +1457,15 @@ class Engine(object):
             return VBool(c if c is not None else z3.BoolVal(False))
         if name in ("refs_closed", "writes_only", "has_op", "declares_param", "defines"):
             return self.tree_spec(name, args, st)
+        if name == "differs_only_at":
+            a_, b_ = lst(args[0]), lst(args[1])
+            if a_.kind != "seq" or b_.kind != "seq":
+                raise OutOfSubset("differs_only_at expects seq lists")
+            i_ = args[2].z
+            sa, sb = a_.g["seq"], b_.g["seq"]
+            n_ = b_.len
+            return VBool(z3.And(a_.len == n_, i_ >= 0, i_ < n_, z3.SubString(sa, 0, i_) == z3.SubString(sb, 0, i_),
+                                z3.SubString(sa, i_ + 1, n_ - i_ - 1) == z3.SubString(sb, i_ + 1, n_ - i_ - 1)))
         if name == "chars_subset":
             return VBool(py_chars_subset(args[0].z, args[1].z))
         if name == "field":
@@ -2196,7 +2230,7 @@ class Contract(object):
     """Sidecar contract of one real function (DESIGN §2.1 'Contract file format')"""
 
     def __init__(self, qual, params=None, requires=(), ensures=(), modifies=(), result="opaque", loops=None,
-                 bind=None, closure=None, local_kinds=None, decorators=None, pure_results=None, trusted=None, src=None, deterministic=False):
+                 bind=None, closure=None, local_kinds=None, decorators=None, pure_results=None, trusted=None, src=None, deterministic=False, paths=None, block=None):
         self.qual = qual
         self.params = params or {}
         self.requires, self.ensures, self.modifies = list(requires), list(ensures), list(modifies)
@@ -2209,6 +2243,8 @@ class Contract(object):
         self.pure_results = pure_results or {}
         self.trusted = trusted
         self.deterministic = deterministic
+        self.paths = paths or {}
+        self.block = block
         self.src = src or qual.split("#")[0]
 
     def fnode(self):
@@ -2279,3 +2315,75 @@ def _engine_verify_loop(self, contract, k):
 
 
 Engine.verify_loop = _engine_verify_loop
+
+
+def _engine_verify_block(self, contract):
+    """
+    Block contract: the statements of the function selected by `contract.block` (a predicate on the
+    unparsed statement text, applied to the statements of the *innermost* body that contains a match),
+    run from an arbitrary state of the declared sorts (`params` = variables, `paths` = access paths on
+    uninterpreted objects) under `requires`; `ensures` must hold at every normal end of the block.
+    """
+    import copy
+
+    self.contract = contract
+    self.modname = contract.qual.split(":")[0]
+    self.module = importlib.import_module(self.modname)
+    fnode = contract.fnode()
+    if fnode is None:
+        raise OutOfSubset("function %s not found in current source" % contract.src)
+    fnode = copy.deepcopy(fnode)
+    self.contract_fnode = fnode
+    self.number_loops(fnode)
+    chosen = None
+    for n in ast.walk(fnode):
+        for fld in ("body", "orelse"):
+            stmts = getattr(n, fld, None)
+            if isinstance(stmts, list) and stmts and isinstance(stmts[0], ast.stmt):
+                sel = [s_ for s_ in stmts if contract.block(ast.unparse(s_))]
+                if sel:
+                    if chosen is not None:
+                        raise OutOfSubset("block of %s matches in more than one place" % contract.qual)
+                    chosen = sel
+    if not chosen:
+        raise OutOfSubset("block of %s not found in current source" % contract.qual)
+    st = State()
+    for n_, kind in contract.params.items():
+        v = self.fresh_value(kind, n_, st)
+        if isinstance(v, VOpaque):
+            v.path = n_
+        st.bind(n_, v)
+    # materialise declared access paths so that `old(...)` can see them
+    for pth in contract.paths:
+        tree = ast.parse(pth, mode="eval").body
+        self._eval(tree, st)
+    st.old = (dict(st.frames[0]), dict(st.heap))
+    st.ghost["__old_paths__"] = dict(st.ghost.get("__paths__", {}))
+    for r in contract.requires:
+        st.assume(self.eval_spec(r, st))
+    if not self.feasible(st):
+        raise OutOfSubset("requires of block %s is unsatisfiable" % contract.qual)
+    ends = 0
+    for s, (kind, val) in self.exec_block(chosen, st):
+        if kind != NORMAL:
+            continue
+        ends += 1
+        for i, en in enumerate(contract.ensures):
+            self.oblige(s, "block.ensures[%d]" % i, self.eval_spec(en, s), 0)
+    self.covers.append(("block-end-reachable", ends > 0))
+    if ends == 0:
+        raise OutOfSubset("no path reaches the end of the block of %s (vacuous)" % contract.qual)
+    return self.obligations
+
+
+Engine.verify_block = _engine_verify_block
+_orig_verify = Engine.verify
+
+
+def _verify_dispatch(self, contract):
+    if contract.block is not None:
+        return self.verify_block(contract)
+    return _orig_verify(self, contract)
+
+
+Engine.verify = _verify_dispatch
